@@ -15,7 +15,7 @@ from vncdotool import rfb
 TRUSTED_BASE = ["Model/Rfb.v connection_made + Model/Image.v decode_pixels hand-written; PF2IM, RGB32, BGR16, SUPPORTED_ENCODINGS and "
                 "the factory option defaults regenerated from the running code", "Pillow raw-mode unpackers (modelled, validated here)"]
 ASSUMPTIONS = ["the preferred encoding is one the client can decode (a member of SUPPORTED_ENCODINGS)"]
-EXTRA_VO = ["Proofs/RfbTie.vo"]
+EXTRA_VO = ["Proofs/RfbTieHandshake.vo"]
 
 PF2IM = {tuple([p.bpp, p.depth, int(p.bigendian), int(p.truecolor), p.redmax, p.greenmax, p.bluemax, p.redshift, p.greenshift,
                 p.blueshift]): m for p, m in vclient.PF2IM.items()}
